@@ -93,6 +93,17 @@ pub fn bodies() -> Vec<String> {
         "no markup, only text with ü and 漢".into(),
         // > 64 KiB of plain text in few compressed bytes: one compressed chunk inflates past the codecs' internal buffers
         "<html><body><div>big</div>".to_string() + &"<p>0123456789 répétition abcdefghijklmnopqrstuvwxyz</p>".repeat(1400) + "</body></html>",
+        // ~200 KiB of high-entropy text: one filter() call makes the re-encoder emit far more than its internal buffer
+        {
+            let mut s = String::from("<html><body><div>noise</div><p>");
+            let mut x: u64 = 0x243F6A8885A308D3;
+            for _ in 0..200_000 {
+                x = x.wrapping_mul(6364136223846793005).wrapping_add(1442695040888963407);
+                s.push((b'!' + ((x >> 33) % 90) as u8) as char);
+            }
+            s.push_str("</p></body></html>");
+            s.replace('<', "(").replacen("(html>(body>(div>noise(/div>(p>", "<html><body><div>noise</div><p>", 1).replace("(/p>(/body>(/html>", "</p></body></html>")
+        },
     ]
 }
 
@@ -268,6 +279,18 @@ pub fn schedules_for(n: usize, tier: Tier, big_body: bool) -> Vec<Vec<usize>> {
         v.push(vec![0, 0]);
         return v;
     }
+    if n > 100_000 {
+        // a compressed stream this long belongs to the high-entropy body: a handful of coarse schedules
+        let mut v: Vec<Vec<usize>> = vec![vec![n], vec![n / 2, n - n / 2], vec![0, n, 0]];
+        for s in [65536usize, 49152, 1000] {
+            let mut sched = vec![s; n / s];
+            if n % s != 0 {
+                sched.push(n % s);
+            }
+            v.push(sched);
+        }
+        return v;
+    }
     if n > 1500 || (big_body && n > 64) {
         // long streams (the big body, or stored / level-0 producers): a lattice of cuts and strides
         let step = (n / tier.pick(12, 48)).max(1);
@@ -336,6 +359,10 @@ pub fn run(tier: Tier) -> i32 {
             for (fi, (fname, f)) in filter_lists().into_iter().enumerate() {
                 // the big body only with one representative producer per codec and the first filter list
                 if b.len() > 30000 && (fi > 0 || !matches!(enc, Enc::Gzip(6) | Enc::Zlib(1) | Enc::Brotli(5, 22))) {
+                    continue;
+                }
+                // the high-entropy body: flate2 codecs only (brotli quality 11 on 200 KiB of noise is too slow per schedule)
+                if b.len() > 150000 && matches!(enc, Enc::Brotli(..)) {
                     continue;
                 }
                 let hv = if work.len() % 5 == 0 { enc.header().to_uppercase() } else { enc.header().to_string() };
